@@ -1,0 +1,187 @@
+//! Verification hooks (cargo feature `verif`, off by default).
+//!
+//! Drop-in wrappers around the shared-memory primitives the crate uses (`AtomicU64`,
+//! `AtomicUsize`, `DashMap`, `SegQueue`). Each wrapped operation calls an installed [`Hook`]
+//! before it (the scheduling point: the hook may block the calling thread) and after it (to log
+//! the operation with its argument and result), but only on threads that registered themselves
+//! as workers with [`set_worker`]; every other thread passes straight through to the real
+//! primitive. With the feature off this module does not exist and the crate is unchanged.
+
+use std::cell::Cell;
+use std::fmt::Debug;
+use std::hash::Hash;
+use std::sync::atomic::Ordering;
+use std::sync::{Arc, RwLock};
+
+/// Scheduler / logger installed by a verification harness.
+pub trait Hook: Send + Sync {
+    /// Called before a shared-memory operation; may block until the thread is scheduled.
+    fn before(&self, worker: usize, obj: usize, op: &'static str);
+    /// Called after the operation with a rendering of its argument and result.
+    fn after(&self, worker: usize, obj: usize, op: &'static str, detail: String);
+}
+
+static HOOK: RwLock<Option<Arc<dyn Hook>>> = RwLock::new(None);
+
+thread_local! {
+    static WORKER: Cell<Option<usize>> = const { Cell::new(None) };
+}
+
+/// Installs (or removes) the global hook.
+pub fn set_hook(h: Option<Arc<dyn Hook>>) {
+    *HOOK.write().unwrap_or_else(|e| e.into_inner()) = h;
+}
+
+/// Registers the calling thread as worker `w` (or unregisters it with `None`).
+pub fn set_worker(w: Option<usize>) {
+    WORKER.with(|c| c.set(w));
+}
+
+#[inline]
+fn hooked<R>(obj: usize, op: &'static str, f: impl FnOnce() -> R, detail: impl FnOnce(&R) -> String) -> R {
+    let w = WORKER.with(|c| c.get());
+    if let Some(w) = w {
+        let h = HOOK.read().unwrap_or_else(|e| e.into_inner()).clone();
+        if let Some(h) = h {
+            h.before(w, obj, op);
+            let r = f();
+            h.after(w, obj, op, detail(&r));
+            return r;
+        }
+    }
+    f()
+}
+
+macro_rules! atomic_wrapper {
+    ($name:ident, $inner:ty, $prim:ty) => {
+        /// Hooked drop-in for the std atomic of the same name.
+        #[derive(Debug, Default)]
+        pub struct $name($inner);
+
+        impl $name {
+            /// Creates the atomic.
+            pub const fn new(v: $prim) -> Self {
+                Self(<$inner>::new(v))
+            }
+            fn addr(&self) -> usize {
+                self as *const Self as usize
+            }
+            /// The address that identifies this object in hook calls.
+            pub fn verif_addr(&self) -> usize {
+                self.addr()
+            }
+            /// Unhooked read, for the harness itself.
+            pub fn verif_raw(&self) -> $prim {
+                self.0.load(Ordering::SeqCst)
+            }
+            /// Hooked `load`.
+            pub fn load(&self, o: Ordering) -> $prim {
+                hooked(self.addr(), "load", || self.0.load(o), |r| format!("-> {r}"))
+            }
+            /// Hooked `store`.
+            pub fn store(&self, v: $prim, o: Ordering) {
+                hooked(self.addr(), "store", || self.0.store(v, o), |_| format!("{v}"))
+            }
+            /// Hooked `fetch_add`.
+            pub fn fetch_add(&self, v: $prim, o: Ordering) -> $prim {
+                hooked(self.addr(), "fetch_add", || self.0.fetch_add(v, o), |r| format!("{v} -> {r}"))
+            }
+            /// Hooked `fetch_sub`.
+            pub fn fetch_sub(&self, v: $prim, o: Ordering) -> $prim {
+                hooked(self.addr(), "fetch_sub", || self.0.fetch_sub(v, o), |r| format!("{v} -> {r}"))
+            }
+        }
+
+        impl serde::Serialize for $name {
+            fn serialize<S: serde::Serializer>(&self, s: S) -> Result<S::Ok, S::Error> {
+                self.0.serialize(s)
+            }
+        }
+
+        impl<'de> serde::Deserialize<'de> for $name {
+            fn deserialize<D: serde::Deserializer<'de>>(d: D) -> Result<Self, D::Error> {
+                <$inner as serde::Deserialize>::deserialize(d).map(Self)
+            }
+        }
+    };
+}
+
+atomic_wrapper!(AtomicU64, std::sync::atomic::AtomicU64, u64);
+atomic_wrapper!(AtomicUsize, std::sync::atomic::AtomicUsize, usize);
+
+/// Hooked drop-in for `dashmap::DashMap` (only the methods the crate uses).
+#[derive(Debug)]
+pub struct DashMap<K: Eq + Hash, V>(dashmap::DashMap<K, V>);
+
+impl<K: Eq + Hash + Debug, V> DashMap<K, V> {
+    /// Creates an empty map.
+    pub fn new() -> Self {
+        Self(dashmap::DashMap::new())
+    }
+    fn addr(&self) -> usize {
+        self as *const Self as usize
+    }
+    /// Hooked `insert`.
+    pub fn insert(&self, k: K, v: V) -> Option<V> {
+        let ks = format!("{k:?}");
+        hooked(self.addr(), "map.insert", || self.0.insert(k, v), |r| format!("{ks} -> {}", if r.is_some() { "replaced" } else { "new" }))
+    }
+    /// Hooked `remove`.
+    pub fn remove(&self, k: &K) -> Option<(K, V)> {
+        hooked(self.addr(), "map.remove", || self.0.remove(k), |r| format!("{k:?} -> {}", if r.is_some() { "found" } else { "none" }))
+    }
+    /// Hooked `get`.
+    pub fn get(&self, k: &K) -> Option<dashmap::mapref::one::Ref<'_, K, V>> {
+        hooked(self.addr(), "map.get", || self.0.get(k), |r| format!("{k:?} -> {}", if r.is_some() { "found" } else { "none" }))
+    }
+    /// Hooked `iter` (the whole iteration is one scheduling point).
+    pub fn iter(&self) -> dashmap::iter::Iter<'_, K, V> {
+        hooked(self.addr(), "map.iter", || self.0.iter(), |_| String::new())
+    }
+    /// Hooked `is_empty`.
+    pub fn is_empty(&self) -> bool {
+        hooked(self.addr(), "map.is_empty", || self.0.is_empty(), |r| format!("-> {r}"))
+    }
+    /// Hooked `len`.
+    pub fn len(&self) -> usize {
+        hooked(self.addr(), "map.len", || self.0.len(), |r| format!("-> {r}"))
+    }
+}
+
+impl<K: Eq + Hash + Debug, V> Default for DashMap<K, V> {
+    fn default() -> Self {
+        Self::new()
+    }
+}
+
+/// Hooked drop-in for `crossbeam::queue::SegQueue` (only the methods the crate uses).
+#[derive(Debug)]
+pub struct SegQueue<T>(crossbeam::queue::SegQueue<T>);
+
+impl<T: Debug> SegQueue<T> {
+    /// Creates an empty queue.
+    pub fn new() -> Self {
+        Self(crossbeam::queue::SegQueue::new())
+    }
+    fn addr(&self) -> usize {
+        self as *const Self as usize
+    }
+    /// Hooked `push`.
+    pub fn push(&self, t: T) {
+        let ts = format!("{t:?}");
+        hooked(self.addr(), "q.push", || self.0.push(t), |_| ts)
+    }
+    /// Hooked `pop`.
+    pub fn pop(&self) -> Option<T> {
+        hooked(self.addr(), "q.pop", || self.0.pop(), |r| match r {
+            Some(t) => format!("-> {t:?}"),
+            None => "-> none".to_string(),
+        })
+    }
+}
+
+impl<T: Debug> Default for SegQueue<T> {
+    fn default() -> Self {
+        Self::new()
+    }
+}
